@@ -46,7 +46,18 @@ def child_run(path, side, prog, upto, do_flush, final, record=True, kill=True):
             f0 = nixio.File.open(path, nixio.FileMode.Overwrite)
             f0.create_block("previous recording", "t").create_data_array("old", "t", data=list(range(50)))
             f0.close()
-        it = Interp(path, compression="DeflateNormal" if final.get("compress") else None, clock=_CLOCK)
+        if final.get("app"):
+            # the application holds the file open for writing for as long as it runs; the history is written by a
+            # helper that opens the same path again, and it is the helper's flush() / close() that returns before
+            # the kill
+            import nixio
+            app = nixio.File.open(path, nixio.FileMode.Overwrite)
+            app.create_block("application", "t")
+            app.flush()
+            it = Interp(path, compression="DeflateNormal" if final.get("compress") else None, clock=_CLOCK, mode="a")
+            it.positional_ok = False
+        else:
+            it = Interp(path, compression="DeflateNormal" if final.get("compress") else None, clock=_CLOCK)
         for i, op in enumerate(prog[:upto]):
             _CLOCK.advance(1 + i % 3)
             if op["op"] == "flush":
@@ -184,7 +195,7 @@ def run_case(case, ctx):
         if o["op"] not in ("tick",):
             since += 1
     nt = (creations >= 3 or appends >= 1) and since >= 1
-    classes = ["point:" + final["kind"], "path:" + ("held-a-file-before" if final.get("pre") else "new"), "expected-from:" + ("reference-run" if blind else "walk-before-flush"),
+    classes = ["point:" + final["kind"], "writer:" + ("second-handle-of-the-process" if final.get("app") else "only-handle"), "path:" + ("held-a-file-before" if final.get("pre") else "new"), "expected-from:" + ("reference-run" if blind else "walk-before-flush"),
                "compress" if final.get("compress") else "plain",
                "appends:%d" % min(appends, 3), "since-last-flush:%d" % min(since, 5)]
     between = []
@@ -227,7 +238,8 @@ def program_strategy(draw, max_ops):
         body = [draw(S[kind]) for _ in range(draw(st.integers(1, 3)))]
         at = draw(st.integers(min(len(prog), 8), len(prog)))
         prog[at:at] = [{"op": "flush"}] + body + [{"op": "flush"}]
-    return {"prog": prog, "compress": draw(st.booleans()), "pre": draw(st.sampled_from([False, False, True]))}
+    return {"prog": prog, "compress": draw(st.booleans()), "pre": draw(st.sampled_from([False, False, True])),
+            "app": draw(st.sampled_from([False, False, False, True]))}
 
 
 def run_program(pc, ctx, control_every):
@@ -236,9 +248,9 @@ def run_program(pc, ctx, control_every):
     n = 0
     for i in pts:
         n += 1
-        run_case({"prog": prog, "upto": i, "final": {"kind": "flush", "compress": pc["compress"], "pre": pc.get("pre", False)},
+        run_case({"prog": prog, "upto": i, "final": {"kind": "flush", "compress": pc["compress"], "pre": pc.get("pre", False), "app": pc.get("app", False)},
                   "control": (n % control_every == 0), "observe": "reference" if (n + len(prog)) % 3 == 0 else "walk"}, ctx)
-    run_case({"prog": prog, "upto": len(prog), "final": {"kind": "close", "compress": pc["compress"], "pre": pc.get("pre", False)},
+    run_case({"prog": prog, "upto": len(prog), "final": {"kind": "close", "compress": pc["compress"], "pre": pc.get("pre", False), "app": pc.get("app", False)},
               "control": False, "observe": "reference" if len(prog) % 2 else "walk"}, ctx)
 
 
